@@ -3,6 +3,7 @@ use crate::util::Tok;
 mod bin;
 pub mod c01;
 mod c02;
+mod c02e;
 mod c02f;
 mod c03;
 mod c04;
@@ -38,6 +39,7 @@ pub fn run(engine: &str, toks: Vec<Tok>) -> Vec<Tok> {
         "c15_front" => c15f::run(toks),
         "c15_udp_front" => c15f::udp(toks),
         "c02_front" => c02f::run(toks),
+        "c02_ends" => c02e::run(toks),
         "c04_eval" => c04::eval(toks),
         "c04_front" => c04::front(toks),
         "c05_select" => c05::select(toks),
@@ -63,6 +65,7 @@ pub fn run(engine: &str, toks: Vec<Tok>) -> Vec<Tok> {
         "c16_run" => c16::run(toks),
         "c16_udp" => c16::udp(toks),
         "c16_front" => c16f::run(toks),
+        "c16_gone" => c16f::gone(toks),
         "c18_session" => c18::session(toks),
         "c18_rp" => c18rp::run(toks),
         "c12_extract" => c12::extract(toks),
